@@ -27,7 +27,7 @@ func NewTable(r *Report, a *Analysis, fn *ssa.Function) *Table {
 	fc := a.Ctx(fn)
 	fc.ensureConds()
 	r.Fn(a.P.FnName(fn))
-	return &Table{R: r, A: a, FC: fc, Fn: fn, Reject: fc.RejectFormula(), known: map[string]bool{}, name: a.P.FnName(fn)}
+	return &Table{R: r, A: a, FC: fc, Fn: fn, Reject: fc.NotAcceptFormula(), known: map[string]bool{}, name: a.P.FnName(fn)}
 }
 
 // atomsIn: atoms in the support of the reject formula.
